@@ -160,6 +160,17 @@ class Gef:
         while d.kind == 'un' and d.args[0] == 'Not':
             d = strip(d.args[1])
             truth = not truth
+        if d.kind == 'call' and d.callee_name() in ('eq', 'ne') and len(d.args) == 2:
+            # comparison with a variant of a two-variant unit enum (Color): the same test as a switch on the discriminant
+            for ci, oi in ((0, 1), (1, 0)):
+                c0 = strip(d.args[ci])
+                while c0.kind == 'ref' and not c0.fields():
+                    c0 = strip(c0.args[0])
+                if c0.kind == 'const' and isinstance(c0.args[0], int) and c0.args[0] in (0, 1) and self.two_unit_enum(c0.ty):
+                    t1 = self.term(d.args[oi])
+                    is_one = (c0.args[0] == 1)
+                    tr = truth if d.callee_name() == 'eq' else not truth
+                    return ('discr(%s)' % t1, tr if is_one else not tr)
         if d.kind == 'call' and d.callee_name() == 'ne' and len(d.args) == 2:
             a, b2 = sorted([self.term(d.args[0]), self.term(d.args[1])])
             return ('eq(%s,%s)' % (a, b2), not truth)
@@ -169,6 +180,44 @@ class Gef:
                 a, b2 = b2, a
             return ('Eq(%s,%s)' % (a, b2), not truth)
         return (self.term(d), truth)
+
+    def expand_predicate(self, d, truth):
+        """a branch on a private, effect-free bool helper (`is_black(i)`) is the branch on what the helper tests: the
+        conjunction of the helper's own guards if exactly one of its returns gives this truth value, no guard at all if
+        several do (a disjunction, which the inlined spelling does not show as a dominating guard either); None if d is not
+        such a call"""
+        d = strip(d)
+        while d.kind == 'un' and d.args[0] == 'Not':
+            d = strip(d.args[1])
+            truth = not truth
+        if d.kind != 'call' or d.callee_name() in ('eq', 'ne', 'lt', 'le', 'gt', 'ge', 'cmp', 'partial_cmp'):
+            return None
+        tgt = self.prog.resolve(d)
+        if tgt is None or tgt.is_closure or tgt.path in self.prog.accessors or tgt.path in self.stack or len(self.stack) >= 3:
+            return None
+        if tgt.body.locals[0]['ty'] != 'bool' or tgt.body.cfg.loops():
+            return None
+        from rules.live import mutates
+        if mutates(self.prog, tgt) or has_callbacks(self.prog, tgt):
+            return None
+        sub = Gef(self.prog, tgt, self.mirror, inline=True, stack=self.stack | {self.fn.path}).effects()
+        if any(kind != 'ret' or text not in ('true', 'false') for (_, kind, text) in sub):
+            return None
+        want = 'true' if truth else 'false'
+        hits = [g for (g, kind, text) in sub if text == want]
+        if len(hits) != 1:
+            return []
+        argt = {'<P%d>' % (i + 1): self.term(a) for i, a in enumerate(d.args)}
+        return [(norm_eq(subst(ct, argt)), tr) for ct, tr in hits[0]]
+
+    def two_unit_enum(self, ty):
+        ty = (ty or '').lstrip('&').strip()
+        a = self.prog.adts.get(ty)
+        if a is None:
+            for pth, x in self.prog.adts.items():
+                if pth.split('::')[-1] == ty.split('::')[-1]:
+                    a = x
+        return bool(a) and len(a.get('variants', [])) == 2 and all(not v.get('fields') for v in a['variants'])
 
     def guards(self, block):
         from rules.gate import edge_truth
@@ -184,6 +233,10 @@ class Gef:
                     continue
                 tr = edge_truth(t, succ)
                 if tr is not None:
+                    ex = self.expand_predicate(d, tr) if self.inline else None
+                    if ex is not None:
+                        out |= set(ex)
+                        continue
                     out.add(self.cond(d, tr))
                 else:
                     # multi-way switch: record the value
@@ -243,8 +296,18 @@ class Gef:
                 ev.append((c.point, 'call', 'user::%s' % c.callee_name()))
         from rules.gate import ret_cases
         if b.locals[0]['ty'] not in ('()', '!'):
+            is_bool = b.locals[0]['ty'] == 'bool'
             for blk, v in ret_cases(b):
-                ev.append(((blk, 10 ** 6), 'ret', self.term(v)))
+                sv = strip(v)
+                if is_bool and sv.kind == 'const' and sv.args[0] in (0, 1, True, False):
+                    ev.append(((blk, 10 ** 6), 'ret', 'true' if sv.args[0] else 'false'))
+                elif is_bool and sv.kind in ('call', 'bin', 'un', 'discr') and (sv.kind != 'call' or sv.callee_name() in ('eq', 'ne')):
+                    # a returned test is the same as branching on it and returning the constants
+                    ct, tr = self.cond(sv, True)
+                    ev.append(((blk, 10 ** 6), 'ret', 'true', ((ct, tr),)))
+                    ev.append(((blk, 10 ** 6), 'ret', 'false', ((ct, not tr),)))
+                else:
+                    ev.append(((blk, 10 ** 6), 'ret', self.term(v)))
         # order: reverse post-order of blocks, then statement index
         order = {blk: i for i, blk in enumerate(cfg.rpo)}
         ev.sort(key=lambda e: (order.get(e[0][0], 10 ** 6), e[0][1]))
@@ -254,8 +317,56 @@ class Gef:
             g = self.guards(pt[0])
             if len(e) > 3:
                 g = tuple(sorted(set(g) | set(e[3]), key=str))
+            # a value known equal to a constant on this path is that constant (`if x == EMPTY_REF { return x }`)
+            for (ct, tr) in g:
+                if tr is True and isinstance(ct, str) and ct.startswith('Eq(') and ct.endswith(')'):
+                    parts, depth_, cur_ = [], 0, ''
+                    for ch in ct[3:-1]:
+                        if ch in '({':
+                            depth_ += 1
+                        elif ch in ')}':
+                            depth_ -= 1
+                        if ch == ',' and depth_ == 0:
+                            parts.append(cur_)
+                            cur_ = ''
+                        else:
+                            cur_ += ch
+                    parts.append(cur_)
+                    if len(parts) == 2:
+                        for cst, other in ((parts[0], parts[1]), (parts[1], parts[0])):
+                            if cst in ('EMPTY_REF', 'NIL_INDEX') and other not in ('EMPTY_REF', 'NIL_INDEX'):
+                                if kind == 'ret' and text == other:
+                                    text = cst
+                                elif kind == 'store' and text.endswith(' := ' + other):
+                                    text = text[:-len(other)] + cst
             out.append((g, kind, text))
         return sort_independent(out)
+
+
+def norm_eq(ct):
+    """Eq(a,b) with its two arguments in sorted order (after a substitution)"""
+    if not (isinstance(ct, str) and ct.startswith('Eq(') and ct.endswith(')')):
+        return ct
+    parts, depth, cur = [], 0, ''
+    for ch in ct[3:-1]:
+        if ch in '({':
+            depth += 1
+        elif ch in ')}':
+            depth -= 1
+        if ch == ',' and depth == 0:
+            parts.append(cur)
+            cur = ''
+        else:
+            cur += ch
+    parts.append(cur)
+    if len(parts) != 2:
+        return ct
+    a, b = sorted(parts)
+    return 'Eq(%s,%s)' % (a, b)
+
+
+def has_callbacks(prog, fn):
+    return any(prog.classify(c) == 'callback' for c in fn.body.calls)
 
 
 def split_top(s):
